@@ -132,17 +132,14 @@ class Taint:
             for f in sorted(self.reach):
                 for b in prog.by_short.get(f, ()):
                     o = self.origin(b)
-                    # intrinsic return taint
+                    # intrinsic return taint: the value returned on success (payload of Ok / plain value) contains a
+                    # tainted leaf other than the function's own parameters
                     if f not in self.ret:
-                        for bi, blk in enumerate(b.blocks):
-                            if blk["cleanup"]:
-                                continue
-                            if blk["term"]["k"] == "return":
-                                e = o.place({"l": 0, "proj": []}, (bi, "term"))
-                                if self.tainted(e, f, ignore_params=True):
-                                    self.ret.add(f)
-                                    changed = True
-                                    break
+                        from .summ import return_origins
+                        outs = return_origins(prog, f) or []
+                        if any(self.tainted(e, f, ignore_params=True) for e in outs):
+                            self.ret.add(f)
+                            changed = True
                     for bi, t in b.calls():
                         cv = CalleeView(t["callee"])
                         tgt = cv.target if cv.target in prog.by_short else (cv.short if cv.short in prog.by_short else None)
